@@ -515,6 +515,9 @@ expandfunc(struct macro *m)
 			t = rawnext();
 		}
 		if (p->flags & PARAMSTR) {
+			/* white space after the last token of the argument is deleted */
+			if (str.len > 1 && ((char *)str.val)[str.len - 1] == ' ')
+				--str.len;
 			arrayaddbuf(&str, "\"", 2);
 			arg[i].str = (struct token){
 				.kind = TSTRINGLIT,
